@@ -19,7 +19,7 @@ from core import Fraction, frac, rat
 RULE = ("case = (constructor se3|pos+quat, with/without stamps, poses, operation history); exact-grid stream: every history "
         "over a fixed alphabet (21 symbols: left/right/propagating SE(3), Sim(3) left/right/propagating, scale, reduce, downsample, "
         "motion filter, crop, align, align_origin, project, copy, reads of each view, check, reduce with repeated indices, reduce with a same-length permutation) up to depth 2 (quick) / 3 (thorough) plus "
-        "depth 4 over the cache-relevant sub-alphabet, on 3-pose trajectories with 90-degree rotations and dyadic coordinates; "
+        "depth 4 over the cache-relevant sub-alphabet (12 symbols), on 3-pose trajectories with 90-degree rotations and dyadic coordinates; "
         "long exact-grid stream: histories of length <= 12 on up to 200 poses (incl. propagation); random stream: histories of length <= 15 "
         "on 1..200 poses, epoch stamps, UTM-sized offsets, scales 1e-3..1e3 (propagating transforms only on <= 40 poses there: exact "
         "rationals of a propagated chain grow with the pose index); "
@@ -331,9 +331,9 @@ def gen_cases(ctx):
                     yield dict(grid_base(r, timed, ctor), ops=list(hist), exhaustive=d)
     # deeper histories over the cache-relevant sub-alphabet
     if ctx.thorough:
-        for ctor in ("se3", "pq"):
-            for hist in itertools.product(core_, repeat=4):
-                yield dict(grid_base(r, r.random() < 0.5, ctor), ops=list(hist), exhaustive=4)
+        for hist in itertools.product(core_, repeat=4):
+            # constructor and stamps chosen at random per history (every depth-4 history once)
+            yield dict(grid_base(r, r.random() < 0.5, r.choice(["se3", "pq"])), ops=list(hist), exhaustive=4)
     else:
         for _ in range(1500):
             d = r.choice([3, 3, 4])
